@@ -132,6 +132,33 @@ class Elem:
         return "<%s %s @%s>" % (self.cls, self.text[:40], self.loc)
 
 
+COMMUTATIVE = ("+", "*", "&", "|", "^", "==", "!=")
+
+
+def commute(a, b):
+    """Canonical operand order for commutative operators: constants last, otherwise by a stable structural key
+    (so `2 * i + 1`, `1 + i * 2` and `i * 2 + 1` are one form)."""
+    ka = (1 if a[0] == "c" else 0, _key(a))
+    kb = (1 if b[0] == "c" else 0, _key(b))
+    return (a, b) if ka <= kb else (b, a)
+
+
+def B(op, a, b):
+    """Build a binary norm term the way norm() would (canonical operand order for commutative operators)."""
+    if op in COMMUTATIVE:
+        a, b = commute(a, b)
+    return (op, a, b)
+
+
+def _key(n):
+    """Structural sort key that ignores declaration ids (they differ between units)."""
+    if isinstance(n, tuple):
+        if n and n[0] == "v":
+            return ("v", n[1])
+        return tuple(_key(k) for k in n)
+    return (type(n).__name__, n) if not isinstance(n, str) else n
+
+
 def norm(e):
     """Canonical structural form of an expression: nested tuples that ignore
     parentheses and value-preserving casts.  Equal tuples <=> structurally
@@ -176,7 +203,10 @@ def _norm(e):
     if c == "ArraySubscriptExpr":
         return ("[]", norm(e.kid(0)), norm(e.kid(1)))
     if c in ("BinaryOperator", "CompoundAssignOperator"):
-        return (e.op, norm(e.kid(0)), norm(e.kid(1)))
+        a, b = norm(e.kid(0)), norm(e.kid(1))
+        if c == "BinaryOperator" and e.op in COMMUTATIVE:
+            a, b = commute(a, b)
+        return (e.op, a, b)
     if c == "CallExpr":
         return ("call", e.callee or norm(e.kid(0))) + tuple(norm(a) for a in e.args)
     if c == "ConditionalOperator":
